@@ -17,7 +17,13 @@ is the maximum, `np.argmin` the first minimal index, `np.argmin` of the *scalar*
 error in `_sync_mb_recv` is 0.  `hash((pid, CollGroup))` as queue key is modelled as the pair
 itself (injectivity of `hash` is in the trusted base).  Python exceptions on the modelled path
 are explicit: "exit" (`sys.exit(1)`: a rank without a queue for a kept group), "keyerror",
-"indexerror", "valueerror".  Core Lean only (imported by the driver).
+"indexerror", "valueerror", "assert" (the two `_mp_trace_sanity_check` asserts — the rank-count one is
+implied by the `drain` guard — and the send/receive length assert; all three are unreachable and kept as
+branches).  The two update loops over `dts_shifts` are given in closed form (`shiftAt`); the final
+`list.sort` is a stable sort, modelled by the structurally recursive stable insertion sort.
+The model follows the code after `fix: anchor multi-AIU alignment to rank 0's shifted device clock`
+(`refOffset`); the previous formula is kept as `oldRefOffset` for the sentinel theorem.
+Core Lean only (imported by the driver).
 -/
 import AiuVerif.Basic
 
@@ -221,6 +227,8 @@ def calibrateG (rf : Rat → Rat → Rat → Rat) (evs : List MEv) : Except Stri
   | cg0 :: _ =>
     let tree := treeReduce evs cg0
     let (col0, send, recv) ← ends evs cgs tree np
+    -- `assert len(list_TS5_last_send) == len(list_TS2_last_recv)` (both have one entry per kept group)
+    if send.length ≠ recv.length then .error "assert" else
     let diff := List.zipWith (fun r s => r - s) recv send
     match argminBy (List.zip cgs diff) with
     | none => .error "valueerror"
